@@ -243,15 +243,16 @@ def frame_fields(c: Contract, fi: front.FuncInfo, st: State) -> List[str]:
 
 
 # ---------------------------------------------------------------- solving
-def solve(ob: Obligation) -> None:
-    t0 = time.time()
-    s = z3.Solver()
-    s.set("timeout", Z3_TIMEOUT_MS)
-    s.set("random_seed", int(os.environ.get("VERIF_SEED", "0")) % (2 ** 30))
-    for a in INTERN.string_axioms():
-        s.add(a)
+def _mk_solver(ob: Obligation, timeout_ms: int, mbqi: bool):
     from .exec import has_quantifier
 
+    s = z3.Solver()
+    s.set("timeout", timeout_ms)
+    s.set("random_seed", int(os.environ.get("VERIF_SEED", "0") or 0) % (2 ** 30))
+    if not mbqi:
+        s.set("smt.mbqi", False)
+    for a in INTERN.string_axioms():
+        s.add(a)
     for p in ob.pc:
         # reachability covers are decided on the quantifier-free part of the path condition (a sat answer in the
         # presence of quantifiers is beyond the solver); proof obligations always use the full path condition
@@ -259,8 +260,21 @@ def solve(ob: Obligation) -> None:
             continue
         s.add(p)
     s.add(z3.Not(ob.goal))
-    r = s.check()
-    ob.backend = "z3-api"
+    return s
+
+
+def solve(ob: Obligation) -> None:
+    """Strategy: z3 with E-matching only (fast for unsat), then z3 default (MBQI, can answer sat), then cvc5."""
+    t0 = time.time()
+    r = z3.unknown
+    s = None
+    for mbqi, share in ((False, 0.3), (True, 1.0)):
+        s = _mk_solver(ob, max(1000, int(Z3_TIMEOUT_MS * share)), mbqi)
+        r = s.check()
+        ob.backend = "z3-api" if mbqi else "z3-api(ematching)"
+        if r == z3.unsat or (r == z3.sat and mbqi):
+            break
+        r = z3.unknown if r == z3.sat else r  # a sat answer without MBQI is not trusted for quantified problems
     if r == z3.unknown:
         r2 = solve_cvc5(s)
         if r2 is not None:
